@@ -628,6 +628,12 @@ func checkGuardedTable(c *Ctx, rule string) int {
 		}
 	}
 	n := 0
+	nAdvisory := 0
+	defer func() {
+		if nAdvisory > 0 {
+			c.note("advisory %s: %d recorded guarded actions of the core functions changed (not a verdict)", rule, nAdvisory)
+		}
+	}()
 	for _, id := range guardedCore {
 		f := p.FuncOpt(id)
 		if f == nil || f.Decl.Body == nil {
@@ -671,7 +677,14 @@ func checkGuardedTable(c *Ctx, rule string) int {
 				if near != "" {
 					msg += " (closest now: `" + clip(near, 260) + "`)"
 				}
-				c.fail(rule, key+":ga:"+h, p.Pos(body.Pos()), msg+": the condition under which "+key+" performs this step, or the step itself, changed")
+				// ADVISORY: two batches of 30 behaviour-preserving refactorings showed that this comparison also fires on
+				// equivalent restructurings (loop forms, hoisted tests, merged closures, extracted helpers). It therefore
+				// never raises a violation: the difference is recorded in the evidence notes for the reader.
+				nAdvisory++
+				if nAdvisory <= 12 {
+					c.note("advisory %s %s: %s", rule, key, msg)
+				}
+				c.ok(rule, key+":ga:"+h, p.Pos(body.Pos()), "advisory only (changed): "+clip(w, 120))
 			}
 		}
 	}
@@ -869,7 +882,7 @@ func (c *Ctx) shapeChanged(rule, key, pos, fnID, msg string) {
 		}
 	}
 	if covered && c.P.Tags == "" {
-		c.ok(rule, key, pos, "shape not recognised ("+msg+"): left to the guarded-action table of "+fnID)
+		c.ok(rule, key, pos, "shape not recognised ("+msg+"): this clause is not decided for the new shape; the advisory guarded-action comparison of "+fnID+" is in the notes")
 		return
 	}
 	c.fail(rule, key, pos, msg)
